@@ -374,4 +374,38 @@ def helloAnswer (mode : Mode) (elliptic : Bool) (vers : Nat) (suites comps : Lis
   | .gm w => answerOn (gmSuites.contains ·) w vers suites comps
   | .tls w => answerOn (tlsSuiteOk w elliptic) w vers suites comps
 
+-- the client's check of a ServerHello ---------------------------------------------------------------------------
+
+/-- suites a client knows: `gmCipherSuites` for the GMSSL client (`mutualCipherSuiteGM`), `cipherSuites` for the TLS
+    client (`mutualCipherSuite`) -/
+def gmKnownSuites : List Nat := [0xe013, 0xe053, 0xe011, 0xe051]
+def tlsKnownSuites : List Nat := tlsSuiteTable.map (·.1)
+def knownSuites (gm : Bool) : List Nat := if gm then gmKnownSuites else tlsKnownSuites
+
+/-- the suite list a client writes into its hello: the configured (or default) list restricted to the suites it
+    knows (`makeClientHelloGM`, `makeClientHello` at version 0x0303) -/
+def helloSuites (gm : Bool) (configured : List Nat) : List Nat := configured.filter (knownSuites gm).contains
+
+/-- `clientHandshakeState.pickTLSVersion`: `mutualVersion` caps the server's version at 0x0303 and the result
+    must be at least TLS 1.0; the GMSSL client compares with 0x0101 -/
+def clientVersionOk (gm : Bool) (vers : Nat) : Bool :=
+  if gm then vers == versionGMSSL
+  else match mutualVersion vers with
+    | none => false
+    | some w => decide (0x0301 ≤ w)
+
+inductive HelloVerdict where
+  | accept
+  | reject (a : Alert)
+deriving DecidableEq, Repr
+
+/-- What a client does with the version, suite and compression method of a ServerHello, in the order of the code
+    (`handshake`: version, then `pickCipherSuite`, then `processServerHello`); `offered` is the suite list of its
+    own hello. -/
+def clientHelloCheck (gm : Bool) (offered : List Nat) (vers suite comp : Nat) : HelloVerdict :=
+  if !clientVersionOk gm vers then .reject .protocolVersion
+  else if !(offered.contains suite && (knownSuites gm).contains suite) then .reject .handshakeFailure
+  else if comp != 0 then .reject .unexpectedMessage
+  else .accept
+
 end Model.Handshake
